@@ -31,6 +31,7 @@ package c15
 import (
 	"bytes"
 	"encoding/binary"
+	"encoding/json"
 	"errors"
 	"fmt"
 	"io"
@@ -854,6 +855,22 @@ func waitReaders(want, wantInRead int) bool {
 }
 
 // ---------------------------------------------------------------------------- misc
+
+// slowLog (development aid, VERIF_C15_DEBUG=1): report cases that took more than a second.
+func slowLog(sub string, c any) func() {
+	if os.Getenv("VERIF_C15_DEBUG") == "" {
+		return func() {}
+	}
+	t0 := time.Now()
+	return func() {
+		if d := time.Since(t0); d > time.Second {
+			b, _ := json.Marshal(c)
+			skipMu.Lock()
+			fmt.Fprintf(os.Stderr, "SLOW %s %v skips=%v case=%s\n", sub, d, skips, b)
+			skipMu.Unlock()
+		}
+	}
+}
 
 func hexs(b []byte) string {
 	if len(b) > 48 {
